@@ -7,8 +7,10 @@ package main
 
 import (
 	"bufio"
+	"encoding/binary"
 	"encoding/json"
 	"fmt"
+	"io"
 	"os"
 	"os/exec"
 	"path/filepath"
@@ -270,7 +272,8 @@ func main() {
 	wg.Wait()
 
 	stats := core.NewStats()
-	sigs := map[string]struct{}{}
+	distinct := 0
+	var sigFiles []string
 	var violations []core.ReplayFile
 	seenKey := map[string]bool{}
 	trouble := ""
@@ -284,13 +287,7 @@ func main() {
 		if wo.Stats != nil {
 			stats.Merge(wo.Stats)
 		}
-		if sb, err := os.ReadFile(prefix + ".sigs"); err == nil {
-			for _, l := range strings.Split(string(sb), "\n") {
-				if l != "" {
-					sigs[l] = struct{}{}
-				}
-			}
-		}
+		sigFiles = append(sigFiles, prefix+".sigs")
 		for _, v := range wo.Violations {
 			if !seenKey[v.Key] {
 				seenKey[v.Key] = true
@@ -351,6 +348,7 @@ func main() {
 			trouble = fmt.Sprintf("worker %d exited with status %d; output tail: %s", w, results[w].code, tail(results[w].out, 1500))
 		}
 	}
+	distinct = countDistinct(sigFiles)
 	if trouble != "" && len(violations) == 0 {
 		harness("%s", trouble)
 	}
@@ -389,11 +387,11 @@ func main() {
 		fmt.Printf("KNOWN-FINDING: property=%s %s — %s (seen in %d runs)\n", prop, k, known[k].What, stats.KnownSeen[k])
 	}
 	wall := time.Since(start).Seconds()
-	writeEvidence(prop, tier, seed, stats, len(sigs), len(lines), wall, W, extra)
+	writeEvidence(prop, tier, seed, stats, distinct, len(lines), wall, W, extra)
 	if stats.Runs == 0 {
 		stats.Runs = 1 // every worker died before reporting; the violation above stands, the evidence stays schema-valid
 	}
-	fmt.Printf("%s %s: %d simulated runs (%d non-trivial, %d distinct), %d events, faults fired %v, %.1fs\n", prop, tier, stats.Runs, stats.Nontrivial, len(sigs), stats.Events, compact(stats.Faults), wall)
+	fmt.Printf("%s %s: %d simulated runs (%d non-trivial, %d distinct), %d events, faults fired %v, %.1fs\n", prop, tier, stats.Runs, stats.Nontrivial, distinct, stats.Events, compact(stats.Faults), wall)
 	for _, l := range lines {
 		fmt.Println(l)
 	}
@@ -698,4 +696,60 @@ func envOr(k, d string) string {
 		return v
 	}
 	return d
+}
+
+// countDistinct counts the union of the workers' sorted signature files by a
+// streaming k-way merge (memory O(workers), so 10^7 runs are no problem).
+func countDistinct(files []string) int {
+	type src struct {
+		r   *bufio.Reader
+		f   *os.File
+		cur uint64
+		ok  bool
+	}
+	next := func(s *src) {
+		var b [8]byte
+		if _, err := io.ReadFull(s.r, b[:]); err != nil {
+			s.ok = false
+			return
+		}
+		s.cur = binary.LittleEndian.Uint64(b[:])
+		s.ok = true
+	}
+	var srcs []*src
+	for _, fn := range files {
+		f, err := os.Open(fn)
+		if err != nil {
+			continue
+		}
+		s := &src{r: bufio.NewReaderSize(f, 1<<16), f: f}
+		next(s)
+		if s.ok {
+			srcs = append(srcs, s)
+		} else {
+			f.Close()
+		}
+	}
+	n := 0
+	var last uint64
+	first := true
+	for len(srcs) > 0 {
+		mi := 0
+		for i := range srcs {
+			if srcs[i].cur < srcs[mi].cur {
+				mi = i
+			}
+		}
+		v := srcs[mi].cur
+		if first || v != last {
+			n++
+			last, first = v, false
+		}
+		next(srcs[mi])
+		if !srcs[mi].ok {
+			srcs[mi].f.Close()
+			srcs = append(srcs[:mi], srcs[mi+1:]...)
+		}
+	}
+	return n
 }
